@@ -109,7 +109,7 @@ func TestVerifReplayC20(t *testing.T) {
 	// the decoded document has exactly one more script element, carrying the nonce when there is one
 	identityOut := map[string]string{}
 	for _, enc := range []string{"", "gzip", "br"} {
-		for _, csp := range []string{"", "default-src 'self'; script-src 'self' 'nonce-abc123'", "script-src 'nonce-n1' 'nonce-n2'; img-src *", "script-src 'nonce' nonce- 'n'"} {
+		for _, csp := range []string{"", "default-src 'self'; script-src 'self' 'nonce-abc123'", "script-src 'nonce-n1' 'nonce-n2'; img-src *", "script-src 'nonce' nonce- 'n'", "default-src 'self' 'nonce-STYLE'; img-src *; script-src 'self' 'nonce-abc123'", "default-src 'nonce-STYLE'; script-src 'self'", "style-src 'nonce-STYLE'"} {
 			hdr := map[string]string{"Content-Type": "text/html; charset=utf-8"}
 			if enc != "" {
 				hdr["Content-Encoding"] = enc
@@ -182,7 +182,7 @@ func TestVerifReplayC20(t *testing.T) {
 		}
 	}
 	if len(seen) == 0 {
-		fmt.Println("REPLAY-NOT-REPRODUCED bounded search: 5 pass-through responses, 3 encodings x 4 CSP shapes rewritten and decoded, 1 HTMX request")
+		fmt.Println("REPLAY-NOT-REPRODUCED bounded search: 5 pass-through responses, 3 encodings x 7 CSP shapes rewritten and decoded, 1 HTMX request")
 	}
 }
 `
